@@ -45,7 +45,7 @@ def proof_check(ctx: core.Ctx) -> None:
     import subprocess  # noqa: PLC0415
 
     info = {"module": "MaxPrincipleProof.tla", "theorems": ["RowUpper", "RowLower", "ArgMax", "ArgMin", "MaxPrinciple",
-                                                             "MinPrinciple", "MaxPrincipleIdeal", "MinPrincipleIdeal"]}
+                                                             "MinPrinciple", "MaxPrincipleIdeal", "MinPrincipleIdeal", "DiffInterior", "DiffLast", "MonoX"]}
     ctx.extra["tlaps"] = info
     if shutil.which("tlapm") is None:
         info["status"] = "not rechecked: tlapm not on PATH"
